@@ -433,6 +433,18 @@ class CallMixin:
             lo, hi, step = a[0].t, a[1].t, a[2].t
         return [(SFunc('range', lo, hi, step), st)]
 
+    def bi_list(self, args, kwargs, st, node):
+        if not args:
+            return [(SLit('list', []), st)]
+        v = args[0]
+        if isinstance(v, (STuple, SLit)):
+            return [(SLit('list', list(v.items)), st)]
+        raise Unsupported('list(%r)' % (v,))
+
+    def bi_hash(self, args, kwargs, st, node):
+        self.assumptions.add('opaque values are hashable (hash() neither raises nor has side effects)')
+        return [(SInt(self.fresh(st, 'hash', z3.IntSort())), st)]
+
     def bi_print(self, args, kwargs, st, node):
         return [(SNone(), st)]
 
